@@ -66,13 +66,48 @@ def profile_retarget(tier):
                 register=gen.register_specs(n=(2, 4), layout=False))
 
 
+def profile_eom(tier):
+    """EOM-heavy programs: the EOM configuration is what matters."""
+    p = profile(tier)
+    return dict(p, weights={"declare": 6, "declare_more": 1, "add": 6, "align": 1, "delay": 2,
+                            "phase_shift": 1, "target": 1, "eom": 14, "add_dmm": 0, "detmap": 0,
+                            "slm": 0, "measure": 0},
+                device=gen.device_specs(n_channels=(1, 2), allow_builtin=False, allow_dmm=False,
+                                        chan_kw={"kind": "Rydberg", "eom": True, "bandwidth": [8, 40]}))
+
+
+@st.composite
+def mutate_eom(draw, c):
+    """Only parameters of the EOM configuration change (those that move the off-detuning
+    or the light shifts but not the timeline, and the others)."""
+    c = copy.deepcopy(c)
+    if not c.get("eom"):
+        return c
+    e = c["eom"]
+    for m in draw(st.lists(st.sampled_from(["idet", "idet", "max_amp", "max_amp", "beams", "coeff", "bw", "buffer"]),
+                           min_size=1, max_size=2, unique=True)):
+        if m == "idet":
+            e["intermediate_detuning"] = e["intermediate_detuning"] * draw(st.sampled_from([1.5, 0.5, 2.0]))
+        elif m == "max_amp":
+            e["max_limiting_amp"] = e["max_limiting_amp"] * draw(st.sampled_from([1.5, 0.5]))
+        elif m == "beams":
+            e["controlled_beams"] = draw(st.sampled_from([["BLUE"], ["RED"], ["BLUE", "RED"]]))
+        elif m == "coeff":
+            e["blue_shift_coeff"] = draw(st.sampled_from([1.1, 0.8, 2.0]))
+        elif m == "bw":
+            e["mod_bandwidth"] = draw(st.sampled_from([20, 40, 100]))
+        elif m == "buffer":
+            e["custom_buffer_time"] = draw(st.sampled_from([240, 100]))
+    return c
+
+
 @st.composite
 def mutate_channel(draw, c):
     c = copy.deepcopy(c)
     muts = draw(st.lists(st.sampled_from([
         "clock", "min_duration", "max_duration", "bandwidth", "pjt", "mri", "frt",
         "max_targets", "eom_buffer", "eom_bw", "eom_beams", "eom_drop", "max_amp", "max_det",
-        "min_avg_amp"]), min_size=0, max_size=3, unique=True))
+        "min_avg_amp", "eom_idet", "eom_max_amp"]), min_size=0, max_size=3, unique=True))
     for m in muts:
         if m == "clock":
             c["clock_period"] = draw(st.sampled_from([1, 2, 4, 8]))
@@ -114,6 +149,10 @@ def mutate_channel(draw, c):
             c["eom"]["controlled_beams"] = draw(st.sampled_from([["BLUE"], ["RED"], ["BLUE", "RED"]]))
         elif m == "eom_drop":
             c.pop("eom", None)
+        elif m == "eom_idet" and c.get("eom"):
+            c["eom"]["intermediate_detuning"] = c["eom"]["intermediate_detuning"] * draw(st.sampled_from([1.5, 0.5]))
+        elif m == "eom_max_amp" and c.get("eom"):
+            c["eom"]["max_limiting_amp"] = c["eom"]["max_limiting_amp"] * draw(st.sampled_from([1.5, 0.5]))
         elif m == "max_amp":
             c["max_amp"] = draw(st.sampled_from([5.0, TWO_PI * 2, 15.0, 100.0]))
         elif m == "max_det":
@@ -159,7 +198,10 @@ def cases(draw, tier, prof=profile):
     B["name"] = "GenDevB"
     dmm_focus = prof is profile_dmm and draw(st.booleans())
     retarget_focus = prof is profile_retarget
-    if retarget_focus:
+    eom_focus = prof is profile_eom
+    if eom_focus:
+        B["channels"] = [draw(mutate_eom(c)) for c in A["channels"]]
+    elif retarget_focus:
         # only the retarget times change
         for c in B["channels"]:
             if draw(st.booleans()):
@@ -177,7 +219,7 @@ def cases(draw, tier, prof=profile):
                     d["max_duration"] = max(d["max_duration"], d["min_duration"])
         else:
             B["dmms"] = [draw(mutate_dmm(d)) for d in B["dmms"]]
-    if not (retarget_focus or dmm_focus) or draw(st.integers(0, 3)) == 0:
+    if not (retarget_focus or dmm_focus or eom_focus) or draw(st.integers(0, 3)) == 0:
         if draw(st.booleans()):
             B["channels"] = [B["channels"][i] for i in draw(st.permutations(list(range(len(B["channels"])))))]
         if draw(st.integers(0, 3)) == 0:
@@ -209,12 +251,31 @@ def cases(draw, tier, prof=profile):
             c["max_abs_detuning"] = c.get("max_abs_detuning") or TWO_PI * 20
     moved = [[x + draw(st.sampled_from([0.0, 0.0, 1.0, -2.0])) * (i + 1) for x in p]
              for i, p in enumerate(base["register"]["coords"])]
-    strict = draw(st.booleans()) or ((dmm_focus or retarget_focus) and draw(st.booleans()))
+    strict = draw(st.booleans()) or ((dmm_focus or retarget_focus or eom_focus) and draw(st.booleans()))
     out = dict(base=base, devB=B, strict=strict, moved=moved)
-    if not base["register"].get("mappable") and draw(st.integers(0, 1 if retarget_focus else 2)) == 0:
+    if not base["register"].get("mappable") and draw(st.integers(0, 1 if (retarget_focus or eom_focus) else 2)) == 0:
         from pv import gen_param
 
         out["param"] = draw(gen_param.parametrized(base, rate=draw(st.sampled_from([10, 30])), custom_var=False))
+    return out
+
+
+def norm_timeline(seq) -> dict:
+    """Per-channel slot list; an idle EOM slot whose off-detuning is zero up to rounding
+    (|det| < 1e-9, e.g. -6e-16 from another light-shift coefficient) is the same
+    instruction as a plain delay."""
+    from pulser import Pulse
+
+    out = {}
+    for n, cs in seq._schedule.items():
+        sl = []
+        for s_ in cs.slots:
+            sig = snap.slot_sig(s_)
+            if isinstance(s_.type, Pulse) and history.is_detuned_delay(s_.type) and abs(
+                    float(s_.type.detuning.samples.as_array()[0])) < 1e-9:
+                sig = ("delay",) + tuple(sig[1:4])
+            sl.append(sig)
+        out[n] = sl
     return out
 
 
@@ -261,7 +322,7 @@ def check(case, ctx: Ctx):
         if nd(new) != nd(seq) or len(new.declared_channels) != len(seq.declared_channels):
             ctx.fail(C, "channel_names", f"{sorted(seq.declared_channels)} -> {sorted(new.declared_channels)}")
         if strict and not seq.is_parametrized():
-            ta, tb = snap.timeline(seq), snap.timeline(new)
+            ta, tb = norm_timeline(seq), norm_timeline(new)
             # DMM names derive from the DMM ids and may change or swap: DMM
             # channels are compared by their position in declaration order
             ren = dict(zip([n for n in seq.declared_channels if n.startswith("dmm_")],
@@ -343,15 +404,29 @@ def check(case, ctx: Ctx):
                         # duration): a late refusal, not a different sequence
                         ctx.label("parametrized_switched_refused_at_build")
                         continue
-                    ta, tb = snap.timeline(outs[0]), snap.timeline(outs[1])
+                    ta, tb = norm_timeline(outs[0]), norm_timeline(outs[1])
                     ren = dict(zip([n for n in outs[0].declared_channels if n.startswith("dmm_")],
                                    [n for n in outs[1].declared_channels if n.startswith("dmm_")]))
                     ta = {ren.get(k, k): v for k, v in ta.items()}
                     d = snap.diff(ta, tb)
                     if d and not (outs[0]._slm_mask_dmm and "dmm" in d.split("/")[1]):
-                        ctx.fail(CP, "strict:parametrized:timeline_changed",
+                        # the tree deliberately ignores `controlled_beams` when the new EOM controls
+                        # both beams: it then offers more off-detuning options and the template's
+                        # (un-updated) optimal_detuning_off may pick another one
+                        chn = d.split("/")[1]
+                        disc = "strict:parametrized:timeline_changed"
+                        if chn in outs[0]._schedule and chn in outs[1]._schedule:
+                            ea = getattr(outs[0]._schedule[chn].channel_obj, "eom_config", None)
+                            eb = getattr(outs[1]._schedule[chn].channel_obj, "eom_config", None)
+                            same_times = not snap.diff({k: [x[:4] for x in v] for k, v in ta.items()},
+                                                       {k: [x[:4] for x in v] for k, v in tb.items()})
+                            if ea is not None and eb is not None and same_times and len(
+                                    getattr(eb, "controlled_beams", ())) > 1 and set(
+                                    getattr(ea, "controlled_beams", ())) != set(eb.controlled_beams):
+                                disc = "strict:parametrized:eom_more_controlled_beams_other_off_detuning"
+                        ctx.fail(CP, disc,
                                  f"strict switch of a parametrized sequence, built with assignment {j}: {d}; "
-                                 f"A={_chdiff(base['device'], case['devB'])}")
+                                 f"A={_chdiff(base['device'], case['devB'])}", cont=True)
     # ---- switch_register: same ids, moved atoms
     if seq.is_register_mappable():
         return
@@ -396,6 +471,9 @@ CLAUSES = [
     Clause("switch_retarget", check, gen=lambda t: cases(t, profile_retarget),
            budget={"quick": (8, 150), "thorough": (16, 3000)},
            doc="local channels with frequent retargets x devices differing only in retarget times (half parametrized)"),
+    Clause("switch_eom", check, gen=lambda t: cases(t, profile_eom),
+           budget={"quick": (8, 120), "thorough": (16, 2500)},
+           doc="EOM-heavy programs x devices differing only in the EOM configuration (half parametrized)"),
     Clause("switch_dmm", check, gen=lambda t: cases(t, profile_dmm),
            budget={"quick": (16, 150), "thorough": (16, 3000)},
            doc="DMM-heavy programs (detuning maps, aligns on DMM channels) x DMM parameter changes"),
